@@ -199,7 +199,7 @@ fn run_table<E: EndianParse, P: ParseAt + Show>(
             ("empty", 1) => write!(o, "{}", t.is_empty() as u8)?,
             ("iter", 1) => {
                 o.write_str("[")?;
-                for (i, x) in t.iter().enumerate() {
+                for (i, x) in Hinted(t.iter()).enumerate() {
                     if i > 0 {
                         o.write_str(" ")?;
                     }
@@ -215,6 +215,7 @@ fn run_table<E: EndianParse, P: ParseAt + Show>(
                     if i > 0 {
                         o.write_str(" ")?;
                     }
+                    let _ = it.size_hint();
                     match it.next() {
                         Some(x) => x.show(o)?,
                         None => o.write_str("none")?,
